@@ -68,12 +68,39 @@ theorem hasBackslash_ticks (l : List CP) : (hasBackslash l).2 ≤ l.length + 1 :
   | nil => simp [hasBackslash]
   | cons c r ih => simp only [hasBackslash]; split <;> simp <;> omega
 
-theorem litAscii_ticks (l : List CP) : (litAscii l).2 ≤ l.length + 1 := by
-  fun_induction litAscii l <;> simp_all <;> omega
+theorem utf8Enc_length (v : Nat) : (utf8Enc v).length ≤ 4 := by
+  unfold utf8Enc
+  split
+  · simp
+  · split
+    · simp
+    · split <;> simp
 
-theorem litKind_ticks (l : List CP) : (litKind l).2 ≤ 2 * l.length + 2 := by
+theorem litBytes_ticks (l : List CP) : (litBytes l).2 ≤ l.length + 1 := by
+  fun_induction litBytes l <;> simp_all <;> omega
+
+theorem litBytes_length (l : List CP) : (litBytes l).1.length ≤ 4 * l.length := by
+  fun_induction litBytes l
+  all_goals simp_all
+  all_goals try omega
+  all_goals
+    rename_i ih
+    have hq : (litBytes ‹List CP›).1.length ≤ 4 * (‹List CP›).length := ih
+    first
+      | (have := utf8Enc_length (‹CP›).val
+         show _ + (litBytes _).1.length ≤ _
+         omega)
+      | (show (litBytes _).1.length + 1 ≤ _
+         omega)
+
+theorem utf8Valid_ticks (l : List Nat) : (utf8Valid l).2 ≤ l.length + 4 := by
+  fun_induction utf8Valid l <;> simp_all <;> omega
+
+theorem litKind_ticks (l : List CP) : (litKind l).2 ≤ 6 * l.length + 6 := by
   have h1 := hasBackslash_ticks l
-  have h2 := litAscii_ticks l
+  have h2 := litBytes_ticks l
+  have h3 := litBytes_length l
+  have h4 := utf8Valid_ticks (litBytes l).1
   simp only [litKind]
   split <;> simp <;> omega
 
@@ -107,12 +134,12 @@ theorem matchExp_le (l : List CP) : (matchExp l).1 ≤ l.length ∧ (matchExp l)
     · simp
 
 /-- What one matcher run may do when `avail` code points are left: a token takes between one and
-`avail` code points, costs at most `3·len + 5` ticks and is never of kind EOF; EOF is reported
+`avail` code points, costs at most `7·len + 5` ticks and is never of kind EOF; EOF is reported
 only on empty input; an error costs at most `avail + 4` ticks and its span is non-empty and lies
 within the `avail` code points. -/
 def Good (avail : Nat) (q : Res × Nat) : Prop :=
   match q.1 with
-  | .tok k len => 1 ≤ len ∧ len ≤ avail ∧ q.2 ≤ 3 * len + 5 ∧ k ≠ .eof
+  | .tok k len => 1 ≤ len ∧ len ≤ avail ∧ q.2 ≤ 7 * len + 5 ∧ k ≠ .eof
   | .eof => q.2 = 1 ∧ avail = 0
   | .err _ off len => q.2 ≤ avail + 4 ∧ 1 ≤ len ∧ off + len ≤ avail
 
